@@ -58,15 +58,20 @@ Theorems (coq/theories/C08/Property.v, all "Closed under the global context"; no
   C08_sharded_never_overwrites   run_sharded under any interruption leaves every pre-existing path unchanged.
   C08_invalidate_only_if_replaced  invalid afterwards -> invalid before, or samefile(dest) and dest replaced.
   C08_bystanders_untouched       a single-file save never changes any other pre-existing path.
-  C08_samefile_valueerror_refuted  KNOWN FINDING reproduced by the model: without `nul_free` (no written external
-                                 tensor has a NUL in its path) C08_exception_clean is false - os.path.samefile
-                                 raises ValueError after mkdtemp and outside the try, the temp dir stays.
-                                 C08_exception_clean / _tensors_read_old carry the hypothesis `nul_free`.
-Known findings (known_findings.d/C08.json, replayed on the implementation on every run, fixes + demos in
-proposed_fixes/C08-*.diff): samefile-valueerror-leaks-tempdir (above; in the model: ASameFileNul) and
-hardlink-alias-invalidated (a tensor reading through ANOTHER hard link of the destination passes samefile and
-is invalidated although its own file keeps the old inode and bytes; the Coq model has no hard links - its
-samefile is path based - so this one lives in the Python oracle only).
+  C08_samefile_valueerror_before_fix  record of the repaired finding: the old witness (NUL in a location) now
+                                 raises ValueError BEFORE mkdtemp and leaves the directory untouched.
+Findings, both REPAIRED in /repo (known_findings.d/C08.json status "fixed", witnesses in corpus/C08/10,11 and
+replayed as regression cases on every run):
+  fixed: property=C08 66e131a  os.path.samefile raised ValueError (NUL in a location) after mkdtemp and outside the
+         try -> temp dir leaked.  Model: probes (ASameFile/ASameFileNul/ASameFileAlias) now precede AMkdtemp; the
+         hypothesis nul_free is gone from C08_exception_clean again.
+  fixed: property=C08 8df84db  a tensor reading through ANOTHER hard link of the destination was invalidated although
+         its file kept the old inode and bytes.  Model: hard links of the destination are a static input
+         (sc_aliases, ASameFileAlias logs samefile=True); `overwritten` (released) = samefile or alias,
+         `invalidated` = those with realpath(tensor.path) = realpath(destination); plan_post performs the two kinds
+         of realpath probes like the code; C08_invalidate_only_if_replaced states the realpath rule.  Path-map
+         entries are otherwise independent files, exact as long as nothing writes in place (which the frame
+         theorems prove for the plan and the trace equality checks for the code).
 Interruptions injected by the generator: os.replace is additionally failed with PermissionError (EACCES,
 EPERM), once and persistently (every retry fails too); after every injected fault every later effect - the
 effects that only exist on error paths - is also a kill point (ctl with both crash_at and fault_at), and the
@@ -104,7 +109,7 @@ Mutants tried (scratch worktree /tmp/wt-C08, VERIF_REPO), all reported VIOLATION
                                                             destination and retries) -> oracle replays (persistent EACCES:
                                                             destination gone after the failed save; fault then kill between
                                                             unlink and retry); r2m3 -> oracle replay
-Unchanged tree: quiet for VERIF_SEED 0..4 (two KNOWN-FINDING lines).
+Unchanged tree: quiet for VERIF_SEED 0..4 (two `fixed:` lines).
 """
 
 from __future__ import annotations
@@ -314,8 +319,13 @@ def scenario_terms(scn: dict, root: str, tok: Tok, tag: str):
             cbt = f"(Some (Some ({cnat(cb['at'])}, {c_exn(cb.get('exc'))})))"
         else:
             cbt = f"(Some (Some ({cnat(cb)}, RuntimeError)))"
-        scs.append("{| sc_req := %s; sc_tmpd := %s; sc_tensors := %s; sc_chunk := %s; sc_cb := %s; sc_cbbase := %s |}" % (
-            tok(canon.comps(req)), tok(tmpd), clist(tl), cnat(min(scn.get("chunk") or 4000, 4000)), cbt, cnat(base)))
+        destrel = os.path.relpath(dest, os.path.realpath(root))
+        aliases = [tok(canon.comps(name)) for name, spec in scn["files"].items()
+                   if spec["kind"] == "hardlink" and os.path.normpath(spec["target"]) == destrel]
+        scs.append("{| sc_req := %s; sc_tmpd := %s; sc_tensors := %s; sc_chunk := %s; sc_cb := %s; sc_cbbase := %s; "
+                   "sc_aliases := %s |}" % (
+                       tok(canon.comps(req)), tok(tmpd), clist(tl), cnat(min(scn.get("chunk") or 4000, 4000)), cbt,
+                       cnat(base), clist(aliases)))
         base += len(items)
     text = (f"Definition fs_{tag} : fsT := {c_fs(fs0, tok)}.\n"
             f"Definition tens_{tag} : list tstate := {clist(tens)}.\n"
@@ -327,7 +337,7 @@ def scenario_terms(scn: dict, root: str, tok: Tok, tag: str):
 def run_term(scn: dict, tag: str, crash, fault) -> str:
     c = f"(mk {copt(crash, cnat)} {copt(fault, cnat)})"
     if scn.get("max_shard") is None:
-        return f"(run {c} fs_{tag} tens_{tag} small_{tag} (hd (Build_scn [] [] [] 0 None 0) scs_{tag}))"
+        return f"(run {c} fs_{tag} tens_{tag} small_{tag} (hd (Build_scn [] [] [] 0 None 0 []) scs_{tag}))"
     return f"(run_sharded {c} fs_{tag} tens_{tag} small_{tag} scs_{tag})"
 
 
@@ -501,6 +511,16 @@ def gen_scenario(rng, sharded: bool = False) -> dict:
             t = {"kind": "ext", "file": "b/m.data", "base": "b", "off": rng.randrange(0, 20 - ln + 1), "len": ln,
                  "preload": rng.random() < 0.5}
             tensors.insert(rng.randrange(len(tensors) + 1), t)
+    if dest_kind == "hardlink" and not sharded:
+        # tensors constructed programmatically (absolute location, no base_dir, so the hard-link containment check
+        # does not apply): one reading through the OTHER hard link, one through the destination path itself
+        for fn, pr in (("zz_hl.data", 0.7), ("m.data", 0.5)):
+            if rng.random() < pr:
+                ln = min(thr + rng.choice([1, 2, 4]), len(old))
+                if ln > thr:
+                    tensors.insert(rng.randrange(len(tensors) + 1),
+                                   {"kind": "ext", "file": fn, "abs": True, "off": rng.randrange(0, len(old) - ln + 1),
+                                    "len": ln, "preload": rng.random() < 0.5})
     nbig = sum(1 for t in tensors if tensor_nbytes(t) > thr)
     cb = rng.choice([None, None, "ok", "ok"] + ([{"at": rng.randrange(nbig), "exc": gen_exc(rng)}] * 2 if nbig else []))
     scn = {"files": files, "dirs": dirs, "req": req, "threshold": thr, "chunk": rng.choice([1, 3, 5, 8, 64]),
@@ -837,23 +857,28 @@ def is_known(ck, scn: dict, failures: list[str]) -> str | None:
 
 
 def replay_known(ck) -> None:
-    """Every known finding is replayed on the implementation on every run."""
+    """Known findings are replayed on the implementation on every run (still failing -> KNOWN-FINDING, no longer
+    failing -> stale); repaired ones are regression cases (failing again -> broken) and are reported as fixed."""
     for k in ck._known:
-        if k.get("status") != "known":
-            continue
         root = os.path.join(ck.scratch, "known")
         try:
             bad = replay_case(k["witness"], "none", None, root)
         finally:
             shutil.rmtree(root, ignore_errors=True)
+        if k.get("status") == "fixed":
+            if bad:
+                ck.violation({"kind": "oracle", "scenario": k["witness"], "mode": "none", "index": None,
+                              "failures": bad, "note": f"fixed finding {k['key']} regressed"})
+            else:
+                print((k.get("what") or k["key"])[:260], flush=True)
+            continue
         if bad and is_known(ck, k["witness"], bad) == k["key"]:
             ck.known_finding(k["key"], k["what"])
         elif bad:
             ck.violation({"kind": "oracle", "scenario": k["witness"], "mode": "none", "index": None, "failures": bad})
         else:
             ck.broken(f"known-finding-stale:{k['key']}",
-                      "the recorded witness no longer fails on the implementation (defect repaired?): remove the "
-                      "finding, drop nul_free/the refuted theorem and update the model")
+                      "the recorded witness no longer fails on the implementation (defect repaired?)")
 
 
 def _oracle_once(ck, scn: dict, mode: str, index) -> list[str]:
